@@ -38,7 +38,7 @@ class NcVar(ModelObject):
         return None
 
     def pv_getattr(self, cx, name):
-        raise PyRaise("AttributeError", (name,))
+        raise Unsupported(f"netCDF variable attribute {name}: no assumed contract")
 
     def _cast(self, x):
         return V.cast_kind(x, self.kind) if self.kind == "real" else V.as_num(x)
@@ -128,7 +128,7 @@ class NcFile(ModelObject):
         elif name == "isopen":
             f = lambda interp: me.open  # noqa: E731
         else:
-            raise PyRaise("AttributeError", (name,))
+            raise Unsupported(f"netCDF dataset attribute {name}: no assumed contract")
         f._pyvc_model = True
         return f
 
